@@ -60,7 +60,14 @@ def r1_drop_tracing(f):
     c = f.code
     for i, t in enumerate(c):
         if t.kind == "macro" and t.text in TRACING and c[i + 1].text in ("(", "[", "{"):
-            if i > 0 and c[i - 1].text not in ("{", "}", ";", "=>"):
+            # `tracing::debug!(..)`: the path-qualified form of the same macro
+            if i > 1 and c[i - 1].text == "::" and c[i - 2].text == "tracing":
+                first = c[i - 2]
+                prev = c[i - 3].text if i > 2 else "{"
+            else:
+                first = t
+                prev = c[i - 1].text if i > 0 else "{"
+            if prev not in ("{", "}", ";", "=>"):
                 raise RuleError("R1: logging macro in expression position at line %d" % t.line)
             close = f.br[i + 1]
             if not _macro_args_pure(f, i + 1, close):
@@ -68,11 +75,11 @@ def r1_drop_tracing(f):
             end = c[close].end
             if close + 1 < len(c) and c[close + 1].text == ";":
                 end = c[close + 1].end
-            elif i > 0 and c[i - 1].text == "=>":
+            elif prev == "=>":
                 # match arm whose whole body is a logging call: keep a unit value
-                edits.append((t.pos, end, "()"))
+                edits.append((first.pos, end, "()"))
                 continue
-            edits.append((t.pos, end, ""))
+            edits.append((first.pos, end, ""))
         if t.text == "#" and c[i + 1].text == "[":
             close = f.br[i + 1]
             name = c[i + 2].text
@@ -758,7 +765,9 @@ def rewrite(text, origin, rules, substs=None, world_calls=None, guard_calls=None
         if pre:
             subst(f, pre, "R12")
     for r in ORDER:
-        if r in rules and RULES[r] not in done:
+        # R1 is definitional (a logging statement with effect-free arguments has no effect on the program state) and applies everywhere:
+        # a log line added to any function under contract must not put the unit out of reach
+        if (r in rules or r == "R1") and RULES[r] not in done:
             RULES[r](f)
             done.add(RULES[r])
     if world_calls is not None:
